@@ -113,8 +113,19 @@ enum OpSpec {
     Squash { x: usize },
     /// absorb from x into the given ancestors (None = every mutable commit)
     Absorb { x: usize, into: Option<Vec<usize>> },
-    /// split x; the given paths go to the first commit (cli engine only)
-    Split { x: usize, paths: Vec<String> },
+    /// split x; the given paths go to the first commit (cli engine only); `legacy` is the value
+    /// of the setting split.legacy-bookmark-behavior (jj's default is true: the split commit is
+    /// recorded as rewritten into the second commit, otherwise into the first one)
+    Split {
+        x: usize,
+        paths: Vec<String>,
+        #[serde(default = "default_true")]
+        legacy: bool,
+    },
+}
+
+fn default_true() -> bool {
+    true
 }
 
 impl OpSpec {
@@ -568,6 +579,7 @@ struct Tally {
     split_proper: Counter,
     split_full: Counter,
     split_empty: Counter,
+    split_non_legacy: Counter,
     unrelated_commits_checked: Counter,
     side_branches_rebased: Counter,
     representation_only_differences: Counter,
@@ -694,7 +706,10 @@ fn oracle(t: &Transition, tally: &Tally) -> (Vec<Fail>, bool) {
                 _ => fails.push((format!("{pre}/top-missing"), "the source became divergent".to_string())),
             }
         }
-        OpSpec::Split { .. } => {
+        OpSpec::Split { legacy, .. } => {
+            if !*legacy {
+                tally.split_non_legacy.inc();
+            }
             match after.by_change(x.change_id())[..] {
                 [first] => {
                     let seconds: Vec<&&Commit> =
@@ -1126,7 +1141,10 @@ fn cli_args(op: &OpSpec, before_commits: &[Commit], wc: usize) -> Vec<String> {
                 }
             }
         }
-        OpSpec::Split { x, paths } => {
+        OpSpec::Split { x, paths, legacy } => {
+            if !*legacy {
+                args.extend(["--config".into(), "split.legacy-bookmark-behavior=false".into()]);
+            }
             args.push("split".into());
             if *x != wc {
                 args.extend(["-r".into(), hex(*x)]);
@@ -1579,7 +1597,7 @@ fn family_cli(thorough: bool) -> Family {
     let description = format!(
         "real jj binary on a Git-backend workspace: c0 creates f, g, d/h (3 lines each); c1 one of {} edits; the source c2 one \
          of {} multi-path edits; above the source one of [{}]; the last commit is the working-copy commit (its edits either \
-         committed or only on disk, so that the command snapshots them); operations: jj split -r c2 -m selected with {} \
+         committed or only on disk, so that the command snapshots them); operations: jj split -r c2 -m selected (under both values of split.legacy-bookmark-behavior) with {} \
          of the paths {{f, g, d/h, k}} the source touches, plus an untouched path, jj squash -r c2 -u, \
          jj absorb --from c2 with --into unset / c0 / c1{}, and the same three operations on the working-copy commit \
          (through the commands' default revision @)",
@@ -1627,13 +1645,15 @@ fn family_cli(thorough: bool) -> Family {
             for s in nonempty_subsets(&touched) {
                 // quick: each single path and all of them
                 if thorough || s.len() == 1 || s.len() == touched.len() {
-                    ops.push(OpSpec::Split { x: 2, paths: s });
+                    for legacy in [true, false] {
+                        ops.push(OpSpec::Split { x: 2, paths: s.clone(), legacy });
+                    }
                 }
             }
             if let Some(u) = untouched {
-                ops.push(OpSpec::Split { x: 2, paths: vec![u.clone()] });
+                ops.push(OpSpec::Split { x: 2, paths: vec![u.clone()], legacy: true });
                 if thorough {
-                    ops.push(OpSpec::Split { x: 2, paths: vec![touched[0].clone(), u] });
+                    ops.push(OpSpec::Split { x: 2, paths: vec![touched[0].clone(), u], legacy: false });
                 }
             }
             ops.push(OpSpec::Squash { x: 2 });
@@ -1654,7 +1674,9 @@ fn family_cli(thorough: bool) -> Family {
                     }
                 }
                 if !wc_paths.is_empty() {
-                    ops.push(OpSpec::Split { x: wc, paths: wc_paths });
+                    for legacy in [true, false] {
+                        ops.push(OpSpec::Split { x: wc, paths: wc_paths.clone(), legacy });
+                    }
                 }
             }
             ops.into_iter()
@@ -1702,7 +1724,7 @@ fn main() {
                 CommitSpec { parents: vec![1], edits: edits(&[("f", "mod0"), ("g", "mod1")]), nodesc: true },
             ],
             wc: 2,
-            ops: vec![OpSpec::Split { x: 2, paths: vec!["g".into()] }],
+            ops: vec![OpSpec::Split { x: 2, paths: vec!["g".into()], legacy: false }],
             dirty: true,
         },
     ] {
@@ -1846,6 +1868,7 @@ fn main() {
         ("split_proper_selection", &tally.split_proper),
         ("split_full_selection", &tally.split_full),
         ("split_empty_selection", &tally.split_empty),
+        ("split_with_legacy_bookmark_behavior_off", &tally.split_non_legacy),
         ("unrelated_commits_checked", &tally.unrelated_commits_checked),
         ("representation_only_differences", &tally.representation_only_differences),
         ("operations_failed_inside_jj", &tally.op_errors),
